@@ -10,6 +10,6 @@ for f in glob.glob(os.path.join(src, '*_test.go')):
     shutil.copy(f, os.path.join(dst, 'demo_test.go'))
 json.dump({"property": name.split('-')[0], "change": change, "needs_to_manifest": needs,
  "confirmed": "patch applies to /repo HEAD, builds, listed test packages pass, demo fails with the patch and passes without (sub-agent run; re-confirmed with tools/confirm_seeded.sh)",
- "checks_run": checks, "source": "independent sub-agent given only the property text and a scratch worktree (second round: asked for changes different in kind and location from the first round)"},
+ "checks_run": checks, "source": "independent sub-agent given only the property text and a scratch worktree (" + os.environ.get("SEED_ROUND", "second round: asked for changes different in kind and location from the first round") + ")"},
  open(os.path.join(dst, 'meta.json'), 'w'), indent=1)
 print("stored", dst)
